@@ -660,10 +660,10 @@ pub fn run(ctx: &mut Ctx) {
     set_cli(ctx.cli.clone(), ctx.cli_plain.clone(), ctx.root.clone());
     ctx.replay_known_and_regressions(&replay);
     let t = ctx.tier;
-    ctx.run_prop("library", t.pick(100_000, 5_000_000), || crate::gen::tape(1600).prop_map(gen_lib), judge_lib);
+    ctx.run_prop("library", t.pick(200_000, 5_000_000), || crate::gen::tape(1600).prop_map(gen_lib), judge_lib);
     if CLI.get().map(|p| p.exists()).unwrap_or(false) {
         ctx.shrink_iters = 150;
-        ctx.run_prop("cli", t.pick(1500, 20_000), || crate::gen::tape(1200).prop_map(gen_cli), judge_cli);
+        ctx.run_prop("cli", t.pick(3000, 20_000), || crate::gen::tape(1200).prop_map(gen_cli), judge_cli);
         if t == Tier::Thorough {
             if CLI_PLAIN.get().map(|p| p.exists()).unwrap_or(false) {
                 ctx.run_prop("cli-plain", 10_000, || crate::gen::tape(1200).prop_map(|t| CliCase { plain: true, ..gen_cli(t) }), judge_cli);
